@@ -131,6 +131,43 @@ def const(c):
     return Lin({}, c)
 
 
+_RESOLVER = [None]
+
+
+def set_helper_resolver(fn):
+    """fn(name) -> ast.FunctionDef of a pure package helper (or None); calls to such helpers whose body is
+    straight-line assignments ending in one ``return`` are inlined before the form is taken"""
+    _RESOLVER[0] = fn
+
+
+def _inline_helper(call):
+    res = _RESOLVER[0]
+    if res is None or not isinstance(call.func, ast.Name):
+        return None
+    fd = res(call.func.id)
+    if fd is None:
+        return None
+    body = [s_ for s_ in fd.body if not (isinstance(s_, ast.Expr) and isinstance(s_.value, ast.Constant))]
+    if not body or not isinstance(body[-1], ast.Return) or body[-1].value is None:
+        return None
+    env = {}
+    params = [a.arg for a in fd.args.posonlyargs + fd.args.args + fd.args.kwonlyargs]
+    for i, a in enumerate(call.args):
+        if i < len(params):
+            env[params[i]] = a
+    for k in call.keywords:
+        if k.arg:
+            env[k.arg] = k.value
+    if set(params) - set(env):
+        return None
+    for st in body[:-1]:
+        if isinstance(st, ast.Assign) and len(st.targets) == 1 and isinstance(st.targets[0], ast.Name):
+            env[st.targets[0].id] = inline(st.value, env)
+        else:
+            return None
+    return inline(body[-1].value, env)
+
+
 def form(expr, env=None, atoms=None):
     """canonical form of an ast expression.  ``env``: single-assignment temporaries to
     inline; ``atoms``: optional renaming of opaque atom texts (alpha-normalisation)."""
@@ -179,6 +216,9 @@ def _form(n, atoms):
             and not n.keywords and len(n.args) >= 2:
         return mk(n.func.id, [_form(a, atoms) for a in n.args])
     if isinstance(n, ast.Call):
+        inl = _inline_helper(n)
+        if inl is not None:
+            return _form(inl, atoms)
         # opaque atom; arguments that are themselves linear are canonicalised inside
         fn = dotted(n.func) or src(n.func)
         args = [_sub(a, atoms) for a in n.args]
